@@ -34,15 +34,16 @@ def run_one(job):
 
 def main():
     a = sys.argv[1:]
-    j, only, also, tier = 3, None, [], 'quick'
+    j, only, also, tier, ids = 3, None, [], 'quick', None
     while a:
         x = a.pop(0)
         if x == '-j': j = int(a.pop(0))
         elif x == '--only': only = a.pop(0).split(',')
         elif x == '--also': also = a.pop(0).split(',')
         elif x == '--tier': tier = a.pop(0)
+        elif x == '--ids': ids = a.pop(0).split(',')       # e.g. 7,8,9: only the changes <Cxx>-7..9
     sids = sorted(x for x in os.listdir(os.path.join(VERIF, 'seeded')) if re.match(r'^C\d\d-\d+$', x))
-    jobs = [(s, [s.split('-')[0]] + also, tier) for s in sids if only is None or s.split('-')[0] in only]
+    jobs = [(s, [s.split('-')[0]] + also, tier) for s in sids if (only is None or s.split('-')[0] in only) and (ids is None or s.split('-')[1] in ids)]
     rows = []
     with concurrent.futures.ThreadPoolExecutor(j) as ex:
         for r in ex.map(run_one, jobs):
@@ -59,6 +60,8 @@ def main():
         if only is not None:
             # keep the rows of the properties that were not rerun
             keep = [l for l in old.split('\n') if l.startswith('| C') and l.split('|')[1].strip().split('-')[0] not in only]
+        elif ids is not None:
+            keep = [l for l in old.split('\n') if l.startswith('| C') and l.split('|')[1].strip().split('-')[1] not in ids]
         else:
             keep = []
     else:
